@@ -232,7 +232,7 @@ Theorem radius_collapse_keeps_others : forall l, wf_keys l ->
 Proof. exact radius_collapse_keeps_others_all. Qed.
 Print Assumptions radius_collapse_keeps_others.
 
-From V Require Import C12.Nesting C12.NestingProofs.
+From V Require Import C12.Nesting C12.NestingProofs C12.NestingFree C12.NestingExpand.
 (* NESTING LOWERING, the branch that may use :is() (or has at most one parent
    selector).  lower_is is the faithful model of lowerNestingInRuleWithContext
    pass 1 (the implicit "&" of relative selectors) and pass 2
@@ -248,11 +248,44 @@ From V Require Import C12.Nesting C12.NestingProofs.
    list without leading combinators, every nested selector and every element:
    the element matches the lowered selector iff it matches the nested selector
    read as CSS Nesting 1 prescribes - a relative selector starts with an
-   implicit "&", and "&" stands for the elements matched by :is(parent list). *)
-Theorem nesting_lowering_is_preserves_matching : forall D parents cx, parents_ok parents = true ->
-  forall x, matches D (parent_set D parents) (lower_is parents cx) x = matches D (parent_set D parents) (inject_amp cx) x.
-Proof. exact lower_is_matching. Qed.
+   implicit "&", and "&" stands for the elements matched by :is(parent list).
+   The lowered selector contains no "&" (nesting_lowering_is_amp_free), so it
+   is evaluated with an arbitrary meaning A' of "&". *)
+Theorem nesting_lowering_is_preserves_matching : forall D parents cx A', parents_ok parents = true ->
+  forall x, matches D A' (lower_is parents cx) x = matches D (parent_set D parents) (inject_amp cx) x.
+Proof. exact lower_is_matching_any. Qed.
 Print Assumptions nesting_lowering_is_preserves_matching.
+
+Theorem nesting_lowering_is_amp_free : forall parents cx, parents_ok parents = true -> has_amp_x (lower_is parents cx) = false.
+Proof. exact lower_is_amp_free. Qed.
+Print Assumptions nesting_lowering_is_amp_free.
+
+(* The cross-product branch, the part that HOLDS: when no "&" of the nested
+   selector sits inside a pseudo-class argument (top_only; then the shared
+   pseudo-class nodes play no role), the element matches SOME selector of the
+   cross product iff it matches the nested selector per CSS Nesting - in every
+   element structure whose combinator relations distribute over unions of sets
+   (every existential relation does), in particular in every forest
+   (nesting_lowering_expand_preserves_matching_forest).  Partial: one selector in
+   the nested rule's list (the Go loop pads the index vectors of the shorter
+   selectors of a list; that only duplicates selectors), and top_only. *)
+Theorem nesting_lowering_expand_preserves_matching_partial : forall D,
+  (forall k (f : nat -> nat -> bool) (l : list nat) z,
+     d_rel D k (tab (size D) (fun y => existsb (fun i => f i y) l)) z = existsb (fun i => d_rel D k (tab (size D) (f i)) z) l) ->
+  forall parents cx A', parents_ok parents = true -> parents <> LNil -> top_only (inject_amp cx) = true ->
+  forall x, (x < size D)%nat ->
+  existsb (fun s => matches D A' s x) (lower_expand parents (LCons cx LNil)) =
+  matches D (parent_set D parents) (inject_amp cx) x.
+Proof. exact lower_expand_matching. Qed.
+Print Assumptions nesting_lowering_expand_preserves_matching_partial.
+
+Theorem nesting_lowering_expand_preserves_matching_forest : forall d parents cx A',
+  parents_ok parents = true -> parents <> LNil -> top_only (inject_amp cx) = true ->
+  forall x, (x < length d)%nat ->
+  existsb (fun s => matches (tree_dom d) A' s x) (lower_expand parents (LCons cx LNil)) =
+  matches (tree_dom d) (parent_set (tree_dom d) parents) (inject_amp cx) x.
+Proof. exact lower_expand_matching_tree. Qed.
+Print Assumptions nesting_lowering_expand_preserves_matching_forest.
 
 (* The cross-product branch (several parents, target without :is()).  lower_expand
    models the index-vector loop literally, including the pseudo-class nodes shared
